@@ -34,19 +34,29 @@ Definition enc_tr (e : tr Z) : list T :=
 Definition mkh (h : nat) (p : Z) (b : list (act Z)) : handlerZ := Build_handler h p b.
 
 (* short constructors with Z arguments: keeps the generated case files small *)
-Definition F (n k : Z) : act Z := AFire (Z.to_nat n) k MNormal.
-Definition FC (n k : Z) : act Z := AFire (Z.to_nat n) k MCancel.
-Definition FS (n k : Z) : act Z := AFire (Z.to_nat n) k MPreStop.
-(* raise: the dispatcher fires [<name>_failure (name n, if n >= 0);] exception (name 98), priority 0 *)
-Definition RA (n : Z) : act Z :=
-  ARaise ((if (n <? 0)%Z then [] else [(Z.to_nat n, 0%Z)]) ++ [(98%nat, 0%Z)]).
+Definition chz (l : list Z) : list nat := map Z.to_nat l.
+Definition F (n k : Z) (cs : list Z) : act Z := AFire (Z.to_nat n) k MNormal (chz cs).
+Definition FC (n k : Z) (cs : list Z) : act Z := AFire (Z.to_nat n) k MCancel (chz cs).
+Definition FS (n k : Z) (cs : list Z) : act Z := AFire (Z.to_nat n) k MPreStop (chz cs).
+(* raise: the dispatcher fires fs = [<name>_failure on the event's channels;] exception on the root's channel, priority 0 *)
+Definition RA (fs : list (Z * list Z)) : act Z :=
+  ARaise (map (fun f => (Z.to_nat (fst f), 0%Z, chz (snd f))) fs).
 Definition X : act Z := AFlush.
 Definition P : act Z := AStop.
 Definition G : act Z := AGen.
 Definition H (h : Z) (p : Z) (b : list (act Z)) : handlerZ := Build_handler (Z.to_nat h) p b.
 Definition R (n : Z) (l : list handlerZ) : nat * list handlerZ := (Z.to_nat n, l).
 
-Definition obs_run (tbl : list (nat * list handlerZ)) (fuel : nat) (prog : list (act Z)) : T :=
-  let s := runZ tbl fuel prog in
+(* (name, channel) -> handler ids in getHandlers order *)
+Definition O (n c : Z) (ids : list Z) : nat * nat * list nat := (Z.to_nat n, Z.to_nat c, chz ids).
+
+Definition obs_run (tbl : list (nat * list handlerZ)) (ord : list (nat * nat * list nat)) (fuel : nat) (prog : list (act Z)) : T :=
+  let s := runZ tbl ord fuel prog in
   Tl [ Tl (flat_map enc_tr (trace s));
        Tl [Tbool (crashed s); Tnat (length (stack s)); Tnat (length (fifo s) + length (heap s))] ].
+
+(* single-channel convenience: every handler of a name listens on channel c, in table order *)
+Definition ord_all (c : nat) (tbl : list (nat * list handlerZ)) : list (nat * nat * list nat) :=
+  map (fun r => (fst r, c, map hid (snd r))) tbl.
+Definition runZ1 (tbl : list (nat * list handlerZ)) (fuel : nat) (prog : list (act Z)) : state Z :=
+  runZ tbl (ord_all 0 tbl) fuel prog.
